@@ -238,14 +238,14 @@ func (s *scanner) consumeIfComment(ch rune) bool {
 }
 
 func (s *scanner) skipToEndOfComment() {
+	// The comment ends at the first "*/" (or with the input, if it is never closed)
+	prev := eof
 	for {
-		if ch := s.read(); ch == '*' {
-			for {
-				if ch := s.read(); ch == '/' {
-					return
-				}
-			}
+		ch := s.read()
+		if ch == eof || (prev == '*' && ch == '/') {
+			return
 		}
+		prev = ch
 	}
 }
 
